@@ -44,6 +44,9 @@ class Engine(Core, ExprMixin, CallMixin, StmtMixin):
     def symbolic_param(self, name, ty):
         v = self.fresh_val(ty, "p_" + name)
         v.py = "param"
+        wt = self.well_typed(v)
+        if wt is not None:
+            self.assume(wt)
         if ty.kind == "List":
             self.assume(self.list_len(v) >= 0)
         return v
@@ -68,6 +71,8 @@ class Engine(Core, ExprMixin, CallMixin, StmtMixin):
             if i == 0 and defcls is not None:
                 v = self.symbolic_param(p, TRef(qual.split(".")[0]))
                 self.assume(v.z != self.S.null)
+                if self.mode == "UNROLL":
+                    self.assume(self.cls_of(v.z) == self.class_ids[qual.split(".")[0]])
                 env[p] = v
                 continue
             if p in c.types:
